@@ -38,6 +38,10 @@ EXPLANATION = (
     "semantics that (a)-(e) interpret (fastmath would let the compiler drop the np.isnan non-PD guard). "
     "NOT decided: rounding error of prefix sums, numerics of np.cov/slogdet/inv, that np.cumsum is a cumulative sum (library model)."
 )
+# obligations added during the build phase (seeding rounds, twins, mutation analysis)
+ADDED_IN_BUILD = ' Also: np.linalg.det is modelled (sign = determinant sign, log(det) = log|det| where positive) so that a log(det) spelling is compared with the definition instead of leaving the analysed subset.'
+EXPLANATION = EXPLANATION + ADDED_IN_BUILD
+
 ASSUMPTIONS = [
     "Python's ast module and evaluation-order/argument-binding semantics as implemented in skverif/symex.py",
     "library model table skverif/models.py (np.cumsum, np.log, np.cov, np.linalg.slogdet/inv, broadcasting, indexing)",
